@@ -9,9 +9,11 @@ open CaddyModel.C01
 #print axioms reachable_invariants
 #print axioms accepted_sets_default_storage
 #print axioms default_storage_untouched_before_run
-#print axioms default_storage_partial
+#print axioms default_storage_after_rejected
+#print axioms default_storage_after_validate
 #print axioms history_atomic
 #print axioms step_atomic
 #print axioms stop_leaves_nothing
 #print axioms load_atomic_old_code_fails
-#print axioms default_storage_full_fails
+#print axioms default_storage_old_code_fails
+#print axioms provision_rollback_sees_every_error
